@@ -665,7 +665,7 @@ pub async fn run_limit(c: LimitCase) -> Result<CaseInfo, Failure> {
 fn limit_strategy(role: Role) -> BoxedStrategy<LimitCase> {
     (
         (0u8..3, prop::sample::select(vec![0u32, 120, 300, 1000]), prop::sample::select(vec![0u16, 1, 2, 3, 5]), prop::sample::select(vec![0u16, 1, 2, 5, 32]), 1u16..6),
-        (prop::sample::select(vec![0u16, 1, 2, 3, 60]), prop::option::of(prop::sample::select(vec![1u16, 2, 3, 10])), prop::option::of(prop::sample::select(vec![64u32, 200, 2000]))),
+        (prop::sample::select(vec![0u16, 1, 2, 3, 60, 21_845, 21_846, 40_000, 65_535]), prop::option::of(prop::sample::select(vec![1u16, 2, 3, 10])), prop::option::of(prop::sample::select(vec![64u32, 200, 2000]))),
         (prop::option::of(prop::sample::select(vec![1u16, 2, 30, 60])), prop::option::of(1u16..8)),
         0u8..6,
     )
